@@ -17,7 +17,8 @@ def register(gen, T):
         ast_rs = T.src("ast/src/ast_expressions.rs")
         irt_rs = T.src("ir/src/ir_types.rs")
         out = [T.header("HlslGenTables", ["hlsl/src/ast_generate.rs", "ir/src/intrinsics.rs",
-                                          "ir/src/ir_types.rs", "ir/src/ir_statements.rs", "ast/src/ast_expressions.rs"])]
+                                          "ir/src/ir_types.rs", "ir/src/ir_statements.rs", "ast/src/ast_expressions.rs",
+                                          "typer/src/typer/statements.rs"])]
 
         def enum(name, lean_name, src):
             raw = [v for v, _ in enum_variants(src, name)]
@@ -324,6 +325,52 @@ def register(gen, T):
             "ast::InitStatement::Declaration(ast) } }; Ok(ast)")
         out.append("/-- generate_for_init: empty / one expression / the definitions in order under the first one's base type -/\n"
                    f"def forInitAsModelled : Bool := {'true' if fi_ok else 'false'}\n\n")
+
+        # ---------------------------------------------------------------- statement attributes: exporter's names, type checker's names
+        abody = fn_body(gen_rs, "generate_statement_attribute")
+        _, aarms, _ = first_match(abody, r'^attribute$')
+        arows = []
+        for pats, guard, result in match_arms(aarms):
+            if guard is not None or len(pats) != 1:
+                raise ExtractError("generate_statement_attribute: guard / alternative patterns unsupported")
+            pm = re.fullmatch(r'ir::StatementAttribute::([A-Za-z0-9]+)(\((.*)\))?', pats[0])
+            r = normws(result)
+            rm = re.fullmatch(r'ast::Attribute \{ name: Vec::from\(\[Located::none\("([a-z_]+)"\.to_string\(\)\)\]\), arguments: (.*), two_square_brackets: false, \}', r)
+            if not pm or not rm:
+                raise ExtractError(f"generate_statement_attribute: arm {pats[0]!r} => {r[:80]!r}")
+            payload = pm.group(3) or ""
+            if rm.group(2) == "Vec::new()":
+                args = "none"
+            elif rm.group(2) == "Vec::from([Located::none(ast::Expression::Literal( ast::Literal::IntUntyped(*v), ))])" and payload == "Some(v)":
+                args = "count"
+            else:
+                raise ExtractError(f"generate_statement_attribute: arguments {rm.group(2)[:80]!r}")
+            arows.append((pm.group(1), payload, rm.group(1), args))
+        avariants = [v for v, _ in enum_variants(stmt_rs, "StatementAttribute")]
+        tbody = fn_body(T.src("typer/src/typer/statements.rs"), "parse_statement_attribute")
+        _, tarms, tend = first_match(tbody, r'^lower_name\.as_str\(\)$')
+        trows = []
+        for pats, guard, result in match_arms(tarms):
+            if pats == ["_"]:
+                continue
+            tm = re.fullmatch(r'Some\(ir::StatementAttribute::([A-Za-z0-9]+)\)', normws(result))
+            if guard is not None or len(pats) != 1 or not re.fullmatch(r'"[a-z_]+"', pats[0]) or not tm:
+                raise ExtractError(f"parse_statement_attribute: arm {pats!r}")
+            trows.append((pats[0].strip('"'), tm.group(1)))
+        _, tarms2, _ = first_match(tbody, r'^lower_name\.as_str\(\)$', tend)
+        for pats, guard, result in match_arms(tarms2):
+            if pats == ['"unroll"']:
+                r = normws(result)
+                if "Ok(ir::StatementAttribute::Unroll(None))" in r and "Ok(ir::StatementAttribute::Unroll(Some(value)))" in r:
+                    trows.append(("unroll", "Unroll"))
+        out.append("/-- `ir::StatementAttribute` -/\ndef statementAttributeKinds : List String := " + T.lean_list(lean_str(k) for k in avariants) + "\n")
+        out.append("/-- generate_statement_attribute: (variant, payload pattern, emitted attribute name, arguments: `none` or the unroll count\n"
+                   "as an unsuffixed integer literal) -/\n"
+                   "def statementAttributeEmitted : List (String × String × String × String) :=\n  " +
+                   T.lean_list(f"({lean_str(a)}, {lean_str(b)}, {lean_str(c)}, {lean_str(d)})" for a, b, c, d in arows) + "\n")
+        out.append("/-- parse_statement_attribute (type checker): (lower-cased source name, variant) -/\n"
+                   "def statementAttributeParsed : List (String × String) :=\n  " +
+                   T.lean_list(f"({lean_str(a)}, {lean_str(b)})" for a, b in trows) + "\n\n")
 
         # ---------------------------------------------------------------- the small helpers Model.GenHlsl mirrors, pinned whole
         pins = {
